@@ -84,6 +84,8 @@ Verdict(e) == CASE e.ev = "Reset"  -> (IF e.S = SectorSize THEN "ok" ELSE "shard
                 [] e.ev = "File"   -> FileVerdict(e)
                 [] e.ev = "Absent" -> AbsentVerdict(e)
                 [] e.ev = "List"   -> ListVerdict(e)
+                [] e.ev = "Hang"   -> "hang:" \o e.call          \* a library call did not return (per-call watchdog)
+                [] e.ev = "Abort"  -> "abort"                    \* the process running the case died (abort / OOM / signal)
                 [] OTHER           -> "unknown-event"
 
 TNone(n) == {1}
